@@ -2,6 +2,7 @@ package checks
 
 import (
 	"bytes"
+	"context"
 	"fmt"
 	"math/rand"
 	"sort"
@@ -343,9 +344,33 @@ func (c *c06Case) silent(what string) bool {
 	return true
 }
 
+// apply submits an update and waits for the acknowledgement. A watchdog expiry alone decides nothing:
+// updates are processed in order, so the update counts as never acknowledged only when a Noop submitted
+// after it has been acknowledged while it still has not; otherwise the run is inconclusive.
 func (c *c06Case) apply(kind string, up imap.Update) hconn.Ack {
 	ack := c.conn.Apply(up, srv.UpdateTimeout)
 	c.w.logf("connector %s: %s -> acked=%v err=%v", kind, shorten(up.String(), 160), ack.Acked, ack.Err)
+
+	if !ack.Acked {
+		later := c.conn.Apply(imap.NewNoop(), srv.UpdateTimeout)
+
+		ctx, cancel := context.WithTimeout(context.Background(), 50*time.Millisecond)
+		err, ok := up.WaitContext(ctx)
+		stillOpen := !ok && ctx.Err() != nil
+		cancel()
+
+		switch {
+		case !stillOpen:
+			ack.Acked, ack.Err = true, err
+		case later.Acked:
+			c.w.violate("C06 update-not-acknowledged "+kind, fmt.Sprintf("the update %s was never acknowledged although a Noop submitted after it was", kind), nil)
+		default:
+			c.r.Inconclusive("%s: neither %s nor a later Noop were acknowledged within the watchdog", c.w.label, kind)
+			c.w.mu.Lock()
+			c.w.failed = true
+			c.w.mu.Unlock()
+		}
+	}
 
 	return ack
 }
@@ -687,11 +712,6 @@ func (c *c06Case) valid() (string, map[string]bool, bool) {
 
 	ack := c.apply(kind, mk())
 	if !ack.Acked {
-		c.r.Inconclusive("%s: %s not acknowledged within the watchdog: %v", c.w.label, kind, ack.Err)
-		c.w.mu.Lock()
-		c.w.failed = true
-		c.w.mu.Unlock()
-
 		return kind, touched, false
 	}
 
@@ -780,7 +800,6 @@ func (c *c06Case) invalid() (string, bool) {
 
 	ack := c.apply(kind, up)
 	if !ack.Acked {
-		c.w.violate("C06 update-not-acknowledged "+kind, fmt.Sprintf("the update %s was not acknowledged: %v", kind, ack.Err), nil)
 		return kind, false
 	}
 
@@ -831,7 +850,6 @@ func (c *c06Case) restate() (string, bool) {
 
 	ack := c.apply("restate "+kind, up)
 	if !ack.Acked {
-		c.w.violate("C06 update-not-acknowledged "+kind, fmt.Sprintf("the update %s was not acknowledged: %v", kind, ack.Err), nil)
 		return kind, false
 	}
 
@@ -1088,7 +1106,6 @@ func c06History(r *ev.Run, label string, steps int) {
 
 				ack := c.apply("echo", e)
 				if !ack.Acked {
-					w.violate("C06 update-not-acknowledged echo", fmt.Sprintf("the echo %s of the client's %s was not acknowledged: %v", e.String(), kind, ack.Err), nil)
 					return
 				}
 
